@@ -549,7 +549,7 @@ func c07validBech(r *vf.Rand, total int) (string, []byte) {
 }
 
 var c07bechClasses = []string{"valid-lower", "valid-upper", "mixed-case", "foreign-in-data", "foreign-in-hrp", "separator",
-	"over-length", "short-checksum", "symbol-corruption", "garbage", "tiny", "length-boundary", "other-checksum-constant"}
+	"over-length", "short-checksum", "symbol-corruption", "garbage", "tiny", "length-boundary", "other-checksum-constant", "case-fold-alias"}
 
 // c07bechWithConstant encodes (hrp, data) like BIP173 but with the final xor
 // constant k instead of 1 (k = 0x2bc830a3 is BIP350's bech32m).
@@ -599,6 +599,33 @@ func c07bechDecodeStream(c *vf.Ctx, i int) {
 			}
 		}
 		s = string(b)
+	case "case-fold-alias":
+		// a letter replaced by the non-ASCII code point that Unicode case
+		// mapping folds onto it (U+212A KELVIN SIGN -> k, U+0130 -> i, U+017F
+		// LONG S -> S, U+0131 -> I): after ToLower / ToUpper the string is the
+		// valid one again, but it is not a bech32 string
+		hrp2 := []byte(hrp)
+		if len(hrp2) > 0 && r.Bool() {
+			hrp2[r.Intn(len(hrp2))] = "kis"[r.Intn(3)]
+		}
+		valid2 := ref.Bech32Encode(string(hrp2), data)
+		if r.Bool() {
+			valid2 = asciiUpper(valid2)
+		}
+		alias := map[byte][]string{'k': {"\u212a"}, 'K': {"\u212a"}, 'i': {"\u0130", "\u0131"}, 'I': {"\u0130", "\u0131"}, 's': {"\u017f"}, 'S': {"\u017f"}}
+		var pos []int
+		for j := 0; j < len(valid2); j++ {
+			if alias[valid2[j]] != nil {
+				pos = append(pos, j)
+			}
+		}
+		if len(pos) == 0 {
+			s = "\u212a" + valid2
+		} else {
+			j := pos[r.Intn(len(pos))]
+			a := alias[valid2[j]]
+			s = valid2[:j] + a[r.Intn(len(a))] + valid2[j+1:]
+		}
 	case "foreign-in-data":
 		b := []byte(valid)
 		p := sep + 1 + r.Intn(len(b)-sep-1)
